@@ -9,7 +9,7 @@ import struct
 
 from ..docmodel import word
 
-SUPPORTS = {"p", "r", "tab", "br", "a", "tbl", "fn", "cm", "header", "footer", "r.num"}
+SUPPORTS = {"p", "r", "tab", "br", "sp", "a", "tbl", "fn", "cm", "header", "footer", "r.num"}
 
 
 def _inl(inls, notes, comments) -> str:
@@ -20,6 +20,8 @@ def _inl(inls, notes, comments) -> str:
             out.append(word(i[1]))
         elif t == "tab":
             out.append("\t")
+        elif t == "sp":
+            out.append(" ")
         elif t == "br":
             out.append("\x0b")
         elif t == "a":       # a hyperlink is a field: begin, instruction, separator, result, end
